@@ -316,8 +316,12 @@ def main(argv):
     os.makedirs(os.path.join(ROOT, "replays"), exist_ok=True)
     if not os.environ.get("VERIF_HAVE_REPO_LOCK"):
         # shared lock: a mutation test (bin/mutate-check) holds it exclusively while /repo is patched
+        # turnstile: a waiting mutation test holds it exclusively, so new checks queue behind it
+        _ts = open(os.path.join(ROOT, ".lock-turnstile"), "w")
+        fcntl.flock(_ts, fcntl.LOCK_SH)
         _rl = open(os.path.join(ROOT, ".lock-repo"), "w")
         fcntl.flock(_rl, fcntl.LOCK_SH)
+        fcntl.flock(_ts, fcntl.LOCK_UN); _ts.close()
         globals()["_REPO_LOCK"] = _rl
     if os.environ.get("VERIF_TIER") in ("quick", "thorough") and tier not in ("quick", "thorough"):
         tier = os.environ["VERIF_TIER"]
